@@ -25,6 +25,7 @@ EXPLANATION = (
     'the single exchange/CAS on q_tail.  Mutual exclusion over all interleavings of the queuing_rw_mutex state machine and FIFO '
     'fairness are NOT decided.')
 EXPLANATION += ' Added after the seeded-change rounds: ' + "D6 also: a function that enqueues its node by an RMW on q_tail and then waits for the node's grant flag has cleared that flag on every path before the RMW."
+EXPLANATION += ' Added in the third session (round-3 seeds and the findings they led to): ' + "D7: the sleeper table of tbb::mutex / rw_mutex - every wait-set scan covers all nodes, waiter and notifiers select the monitor from the same address, every notifier's predicate compares the sleeper's address."
 ASSUMPTIONS = ['C++11 memory model lower bounds', 'witnesses compiled with -fno-access-control to read private constants']
 ND = ['mutual exclusion over all interleavings of the queuing_rw_mutex state machine', 'FIFO fairness as a history property',
       'absence of lost hand-off beyond the checked orders']
